@@ -23,9 +23,11 @@ EXPLANATION = (
 ASSUMPTIONS = [
     "the specification table in vlib/props/c06.py transcribes the JMESPath function specification",
     "`any` admits every value incl. expression references (as the implementation defines it); a union of the six JSON kinds is accepted where the specification says `any`",
+    "to_string is the exception: its result is the JSON encoding of its argument, which an expression reference does not have ('expression references where values are required'), so its parameter must be the six JSON kinds and not `any`",
 ]
 
 any_ = "any"
+value_ = "any JSON value"   # the six JSON kinds, not an expression reference
 fs = frozenset
 NUM, STR, OBJ, ARR, EXP = fs({"number"}), fs({"string"}), fs({"object"}), fs({"array"}), fs({"expref"})
 ARR_NUM = fs({("array", NUM)})
@@ -38,7 +40,7 @@ SPEC = {
     "max_by": ([ARR, EXP], None), "min_by": ([ARR, EXP], None), "sort_by": ([ARR, EXP], None),
     "merge": ([OBJ], OBJ), "not_null": ([any_], any_), "reverse": ([fs({"string", "array"})], None),
     "sort": ([ARR_NUM | ARR_STR], None), "starts_with": ([STR, STR], None), "sum": ([ARR_NUM], None),
-    "to_array": ([any_], None), "to_number": ([any_], None), "to_string": ([any_], None), "type": ([any_], None),
+    "to_array": ([any_], None), "to_number": ([any_], None), "to_string": ([value_], None), "type": ([any_], None),
     "values": ([OBJ], None),
 }
 ANY_EQUIV = [any_, B.JSON6]
@@ -57,6 +59,8 @@ RESULT = {
 def eq_type(found, spec):
     if spec == any_:
         return found in ANY_EQUIV
+    if spec == value_:
+        return found == B.JSON6
     return found == spec
 
 
